@@ -82,22 +82,18 @@ func init() {
 						}
 					}
 					n++
-					drained := false
-					for _, f := range facts(in.Block()) {
-						cm, ok := normFact(f)
-						if !ok {
-							continue
-						}
-						name, isL := counterLoad(cm.X)
-						k, isK := constInt(cm.Y)
-						if isL && isK && name == "numInvoke" && ((cm.Op == token.EQL && k == 0) || (cm.Op == token.LEQ && k == 0) || (cm.Op == token.LSS && k == 1)) {
-							drained = true
-						}
-					}
-					// loop-exit form: `for range ticker.C { if numInvoke == 0 { break } }` — the statement after the
-					// loop is reached only through the break edge or the (infeasible) closed-ticker edge
+					drained := drainObservedAt(in)
+					// or a helper that returns only after the observation was called on the way here
 					if !drained {
-						drained = afterDrainLoop(in)
+						eachInstr(fn, func(j ssa.Instruction) {
+							cc, ok := j.(*ssa.Call)
+							if !ok || !instrDominates(j, in) {
+								return
+							}
+							if sc := cc.Call.StaticCallee(); sc != nil && sc.Pkg == fn.Pkg && sc.Blocks != nil && returnsOnlyDrained(sc) {
+								drained = true
+							}
+						})
 					}
 					r.Check(drained, fname(fn), "conn.Close after numInvoke==0", in.Pos(), "the close is reached only after observing numInvoke == 0", "a connection is closed on the shutdown path without first observing numInvoke == 0: responses of requests already read are written to a closed socket")
 				})
@@ -411,6 +407,46 @@ func init() {
 
 // afterDrainLoop: `in` is reached only by leaving a loop whose exits are (a) a break under
 // numInvoke == 0 or (b) the closed-channel exit of `for range ticker.C` (infeasible).
+// isDrainCmp: the comparison confines the counter to "no request in flight" (== 0, <= 0, < 1).
+func isDrainCmp(cm cmpNorm) bool {
+	k, isK := constInt(cm.Y)
+	return isK && ((cm.Op == token.EQL && k == 0) || (cm.Op == token.LEQ && k == 0) || (cm.Op == token.LSS && k == 1))
+}
+
+// drainObservedAt: instruction in is reached only after numInvoke was observed to be zero: a
+// dominating comparison, or the exit of a polling loop that is left only on that observation.
+func drainObservedAt(in ssa.Instruction) bool {
+	for _, f := range facts(in.Block()) {
+		cm, ok := normFact(f)
+		if !ok {
+			continue
+		}
+		if name, isL := counterLoad(cm.X); isL && name == "numInvoke" && isDrainCmp(cm) {
+			return true
+		}
+	}
+	// loop-exit form: `for range ticker.C { if numInvoke == 0 { break } }` — the statement after the
+	// loop is reached only through the break edge or the (infeasible) closed-ticker edge
+	return afterDrainLoop(in)
+}
+
+// returnsOnlyDrained: every normal return of fn is reached only after the observation.
+func returnsOnlyDrained(fn *ssa.Function) bool {
+	n := 0
+	ok := true
+	for _, b := range fn.Blocks {
+		ret, isRet := b.Instrs[len(b.Instrs)-1].(*ssa.Return)
+		if !isRet || b == fn.Recover {
+			continue
+		}
+		n++
+		if !drainObservedAt(ret) {
+			ok = false
+		}
+	}
+	return ok && n > 0
+}
+
 func afterDrainLoop(in ssa.Instruction) bool {
 	fn := in.Parent()
 	for _, l := range loopsOf(fn) {
@@ -437,7 +473,7 @@ func afterDrainLoop(in ssa.Instruction) bool {
 					continue
 				}
 				name, isL := counterLoad(cm.X)
-				if k, isK := constInt(cm.Y); isL && isK && name == "numInvoke" && cm.Op == token.EQL && k == 0 {
+				if isL && name == "numInvoke" && isDrainCmp(cm) {
 					continue
 				}
 				// closed-channel exit of range over ticker.C: cond is the comma-ok of a receive from a ticker
